@@ -228,3 +228,44 @@ fn c15_access_counts_are_sums() {
     kani::cover!(n == 8, "eight sub-tables reachable");
     std::mem::forget(access);
 }
+
+// ---- the same routing contract with the value built by the real constructor ------------------------------------------------
+
+fn stub_vec_reserve<T, A: std::alloc::Allocator>(v: &mut Vec<T, A>, additional: usize) {
+    assert!(v.capacity() - v.len() >= additional, "collect() allocated exactly what the table count asks for");
+}
+
+/// `with_tables` (verbatim) wraps the sub-tables in order, and `insert` on the value it returns routes by the full key --
+/// so routing state that the constructor derives from the table count (if it ever does) is covered as well.
+#[kani::proof]
+#[kani::unwind(10)]
+#[kani::stub(std::vec::Vec::push, stub_vec_push)]
+#[kani::stub(std::vec::Vec::reserve, stub_vec_reserve)]
+#[kani::stub(TranspositionTable::insert, stub_table_insert)]
+#[kani::stub(TranspositionTable::find, stub_table_find)]
+fn c15_access_constructor_then_insert_and_find() {
+    let n: usize = kani::any();
+    kani::assume(1 <= n && n <= 4);
+    let mut tables = Vec::with_capacity(4);
+    let mut i = 0;
+    while i < 4 {
+        if i < n {
+            tables.push(TranspositionTable { buckets: Vec::new(), used_slots: i });
+        }
+        i += 1;
+    }
+    let access = TranspositionTableAccess::with_tables(tables);
+    let h: Hash = kani::any();
+    let e = any_entry();
+    access.insert(h, e);
+    unsafe {
+        assert!(CALLS[0] == 1 && ARGS[0] == (h % (n as u64)) && ARGS[1] == h);
+    }
+    let r = access.find(h);
+    unsafe {
+        assert!(CALLS[1] == 1 && ARGS[0] == (h % (n as u64)) && ARGS[1] == h);
+    }
+    assert!(r.is_none()); // the stubbed table answers None unless the harness says otherwise
+    kani::cover!(n == 3 && h == 3, "non power of two table count reachable");
+    std::mem::forget(access);
+}
